@@ -32,10 +32,10 @@ for mf in files:
             open(p, 'w').write(s.replace(e['old'], e['new']))
         else:
             if '--tests' in flags:
-                env = dict(os.environ, PYTHONPATH=os.path.join(d, 'src'))
-                p = subprocess.run(['/venv/bin/python', '-m', 'pytest', '-q', '-p', 'no:cacheprovider', '-x', '--timeout=900', 'tests'], cwd=d, env=env,
-                                   stdout=subprocess.PIPE, stderr=subprocess.STDOUT, text=True)
-                print(f"  suite on mutant {m['id']}: {p.stdout.strip().splitlines()[-1]}")
+                env = dict(os.environ, BASELINE_NETNS='1')
+                p = subprocess.run(['/venv/bin/python', os.path.join(VERIF, 'tools', 'baseline.py'), d], env=env, stdout=subprocess.PIPE, stderr=subprocess.STDOUT, text=True)
+                lines = p.stdout.strip().splitlines()
+                print(f"  suite on mutant {m['id']}: {'PASSES (169/169 stable)' if p.returncode == 0 else 'KILLED BY SUITE: ' + ' | '.join(lines[-3:])}")
             for cid in ids:
                 env = dict(os.environ, VERIF_REPO=d, VERIF_NO_EVIDENCE='1')
                 p = subprocess.run([os.path.join(VERIF, 'check'), cid, '--tier', tier], env=env, stdout=subprocess.PIPE, stderr=subprocess.STDOUT, text=True)
